@@ -6,6 +6,7 @@
   (contentType of sparse containers names a registered factory; free on live trees).
 -/
 import Hg.Proofs.CodecLaws
+import Hg.Proofs.HistoryRoundTrip
 import Hg.Props.Examples
 
 namespace Hg.C04
@@ -55,6 +56,17 @@ theorem copy_immut (a : Agg) (ha : good a = true) (hu : uniform a = true) :
     copy (immut a) = some (immut a) := by
   have h := (Hg.good_immut a ha hu).1
   simpa [copy] using Hg.add_zero_right (immut a) h
+
+/-- **every reachable state round-trips**: after any admissible history of fill / fill.numpy / + / += / * / zero() /
+copy() (Hg.Model.History) from an empty live tree that is uniform through its templates (`uniformT`: what the
+constructors of the library can build — `Hg.RoundTrip.Counter` is the checked counterexample for plain `uniform`),
+every aggregator of the pool serialises to a document that loads as its immutable form, which is well-formed and
+satisfies the bookkeeping invariants of C05 -/
+theorem history_roundtrip (z : Agg) (ops : List HOp)
+    (hz : isZeroTree z = true) (hg : good z = true) (ht : hasTmpl z = true) (hu : uniformT z = true)
+    (hok : okRun [z] ops = true) (hgf : goodFills [z] ops = true) :
+    ∀ a ∈ runH z ops, decode (encode a) = some (immut a) ∧ good (immut a) = true ∧ inv (immut a) = true :=
+  Hg.history_roundtrip z ops hz hg ht hu hok hgf
 
 /-! non-vacuity -/
 open Hg.Ex in
